@@ -89,12 +89,19 @@ theorem deleteBody_equiv (strict : Bool) (D : List Nat) (o : DeleteOpts) (held :
     apply ProgEquiv.bindEq gcLockRelease_equiv; intro _
     exact .ret rfl
 
+theorem gcLockReleaseOnError_equiv : ProgEquiv Eq gcLockReleaseOnError gcLockReleaseOnError := by
+  unfold gcLockReleaseOnError
+  pe_op
+  split
+  · exact .ret rfl
+  · exact gcLockDrop_equiv
+
 set_option hygiene false in
 local macro "db_tail" : tactic => `(tactic| (
   apply ProgEquiv.bindEq (deleteBody_equiv strict D o held).attemptAllEq; intro r
   split
   · pe_leaf
-  · exact ProgEquiv.bindEq gcLockDrop_equiv fun _ => .fail _
+  · exact ProgEquiv.bindEq gcLockReleaseOnError_equiv fun _ => .fail _
   · exact ProgEquiv.bindEq gcLockDrop_equiv fun _ => .panic _))
 
 /-- **`delete_bands` is insensitive to the order of every listing.**  The unreferenced blocks
@@ -136,29 +143,31 @@ theorem readContent_equiv (as : List Addr) (acc : Str) :
     · pe_leaf
     · exact ih _
 
-theorem restoreEntries_equiv (es : List IndexEntry) :
-    ProgEquiv Eq (restoreEntries H es) (restoreEntries H es) := by
-  induction es with
+theorem restoreEntries_equiv (syms : List Str) (es : List IndexEntry) :
+    ProgEquiv Eq (restoreEntries H syms es) (restoreEntries H syms es) := by
+  induction es generalizing syms with
   | nil => exact .ret rfl
   | cons e es ih =>
     unfold restoreEntries
     split
+    · exact .emit _ (ih _)
     · split
-      · pe_leaf
-      · exact ProgEquiv.bindEq ih fun _ => .ret rfl
-    · apply ProgEquiv.bindEq (readContent_equiv H _ _); rintro ⟨bytes, bad⟩
-      simp only []
-      split
-      · exact ProgEquiv.logError_then _ (ProgEquiv.bindEq ih fun _ => .ret rfl)
       · split
         · pe_leaf
-        · exact ProgEquiv.bindEq ih fun _ => .ret rfl
-    · split
-      · exact .emit _ ih
+        · exact ProgEquiv.bindEq (ih _) fun _ => .ret rfl
+      · apply ProgEquiv.bindEq (readContent_equiv H _ _); rintro ⟨bytes, bad⟩
+        simp only []
+        split
+        · exact ProgEquiv.logError_then _ (ProgEquiv.bindEq (ih _) fun _ => .ret rfl)
+        · split
+          · pe_leaf
+          · exact ProgEquiv.bindEq (ih _) fun _ => .ret rfl
       · split
-        · pe_leaf
-        · exact ProgEquiv.bindEq ih fun _ => .ret rfl
-    · exact .emit _ ih
+        · exact .emit _ (ih _)
+        · split
+          · pe_leaf
+          · exact ProgEquiv.bindEq (ih _) fun _ => .ret rfl
+      · exact .emit _ (ih _)
 
 /-- **`restore` is insensitive to the order of every listing**: it restores the same nodes with
 the same content and reports the same problems. -/
@@ -169,7 +178,7 @@ theorem restore_equiv (sel : BandSelection) (subtree : Str) (excl : Str → Bool
   apply ProgEquiv.bindEq (bandOpen_equiv b); intro _
   apply ProgEquiv.bind listBlocks_equiv; intro _ _ _
   apply ProgEquiv.bindEq (listEntries_equiv b subtree excl); intro es
-  exact restoreEntries_equiv H es
+  exact restoreEntries_equiv H [] es
 
 end
 
